@@ -104,6 +104,9 @@ def run(ctx):
         ctx.violation("C01 fails on the real engine: %s" % f["why"],
                       dict(kind="implementation-monitor/L2", input=f,
                            replay_hint="suites.engine.run_case(engine_specs.<template>, seed) reproduces the run"))
+    # the run-loop theorems (C01_run_loop_*) rest on Model/Runner.v: tie it to _ControlLoopRunner
+    from props._engine_common import run_runnerdiff
+    run_runnerdiff(ctx, ctx.n(60, 1500), 'C01_run_loop_in_flight_bounded / C01_run_loop_in_flight_holds_slot')
 
 
 def replay(ctx, path):
